@@ -214,7 +214,6 @@ mut("c20g-delete-clears-linked", "C20", T, "                        self.add_cha
     "                        self.add_changed_type(link, item.parent_sub.clone());\n                    }\n                }\n                item.info.clear_linked();\n            }\n            result = true;", "C20.g")
 mut("c17d-index-to-ptr-counts-tombstones", "C17", "yrs/src/branch.rs", "            let content_len = item.content_len(encoding);\n            if !item.is_deleted() && item.is_countable() {\n                if index == content_len {",
     "            let content_len = item.content_len(encoding);\n            if item.is_countable() {\n                if index == content_len {", "C17.d", also=["C03"])
-mut("c17d-block-iter-forward-counts-tombstones", "C17", "yrs/src/block_iter.rs", None, None, "C17.d")
 mut("c09ds-writer-cur-not-advanced", "C09", "yrs/src/updates/encoder.rs", "        self.buf.write_var(len - 1);\n        self.ds_curr_val += len;", "        self.buf.write_var(len - 1);\n        self.ds_curr_val += len - 1;", "C09.packed")
 mut("c09ds-reader-returns-cur", "C09", "yrs/src/updates/decoder.rs", "            .checked_add(diff)\n            .ok_or(Error::UnexpectedValue)?;\n        Ok(diff)", "            .checked_add(diff)\n            .ok_or(Error::UnexpectedValue)?;\n        Ok(self.ds_curr_val)", "C09.packed")
 mut("c09ds-benign-named-sum", "C09", "yrs/src/updates/decoder.rs", "        self.ds_curr_val = self\n            .ds_curr_val\n            .checked_add(diff)\n            .ok_or(Error::UnexpectedValue)?;\n        Ok(diff)",
@@ -224,3 +223,22 @@ mut("c06i-remainder-from-range-start", "C06", T, "                            un
 mut("c06i-skip-remainder-unclamped", "C06", T, "                                            let len = block.len().min(clock_end - clock);", "                                            let len = block.next_clock() - clock;", "C06.i", also=["C04"])
 mut("c06i-benign-named-remainder", "C06", T, "                            unapplied.insert(ID::new(*client, state), clock_end - state);", "                            let rest = clock_end - state;\n                            unapplied.insert(ID::new(*client, state), rest);", "", kind="benign", also=["C04"])
 mut("c10-state-vector-empty-client", "C10", U, "            if !blocks.is_empty() && blocks[0].id().clock == 0 {", "            if blocks[0].id().clock == 0 {", "C10.index")
+
+# ---------------------------------------------------------------- rules added after the second seeded round
+mut("c03g-delete-stale-rel", "C03", "yrs/src/block_iter.rs", "                        i = item.as_deref().unwrap();\n                        self.rel = 0;\n", "                        i = item.as_deref().unwrap();\n", "C03.g")
+mut("c11e-attrs-before-flush", "C11", "yrs/src/types/text.rs", "                                if asm.action == Some(Action::Retain) {\n                                    asm.add_op();\n                                }\n                                if value.as_ref() == &Any::Null {\n                                    asm.attrs.remove(key);\n                                } else {\n                                    asm.attrs.insert(key.clone(), *value.clone());\n                                }",
+    "                                if value.as_ref() == &Any::Null {\n                                    asm.attrs.remove(key);\n                                } else {\n                                    asm.attrs.insert(key.clone(), *value.clone());\n                                }\n                                if asm.action == Some(Action::Retain) {\n                                    asm.add_op();\n                                }", "C11.e")
+mut("c13e-restore-shortcut", "C13", S, "        self.write_blocks_to(&snapshot.state_map, encoder);\n        snapshot.delete_set.encode(encoder);\n",
+    "        if snapshot.state_map == self.blocks.get_state_vector() {\n            self.encode_diff(&StateVector::default(), encoder);\n            return Ok(());\n        }\n        self.write_blocks_to(&snapshot.state_map, encoder);\n        snapshot.delete_set.encode(encoder);\n", "C13.e")
+mut("c13e-benign-early-return-same-writers", "C13", S, "        self.write_blocks_to(&snapshot.state_map, encoder);\n        snapshot.delete_set.encode(encoder);\n\n        Ok(())",
+    "        let sm = &snapshot.state_map;\n        self.write_blocks_to(sm, encoder);\n        snapshot.delete_set.encode(encoder);\n        return Ok(());", "", kind="benign", also=["C06", "C09"])
+mut("c14d-can-forward-only-deleted", "C14", "yrs/src/block_iter.rs", "                return !item.is_countable() || item.is_deleted() || self.reached_end;", "                return item.is_deleted();", "C14.d")
+mut("c14d-benign-reordered-disjuncts", "C14", "yrs/src/block_iter.rs", "                return !item.is_countable() || item.is_deleted() || self.reached_end;", "                return item.is_deleted() || !item.is_countable();", "", kind="benign")
+mut("c16d-intersect-raw-push", "C16", "yrs/src/ids.rs", "                    if let Some(last) = result.last_mut() {\n                        if last.0.end == lo && last.1 == merged {\n                            last.0.end = hi;\n                        } else {\n                            result.push((lo..hi, merged));\n                        }\n                    } else {\n                        result.push((lo..hi, merged));\n                    }",
+    "                    result.push((lo..hi, merged));", "C16.d")
+mut("c16d-benign-use-helper", "C16", "yrs/src/ids.rs", "                    if let Some(last) = result.last_mut() {\n                        if last.0.end == lo && last.1 == merged {\n                            last.0.end = hi;\n                        } else {\n                            result.push((lo..hi, merged));\n                        }\n                    } else {\n                        result.push((lo..hi, merged));\n                    }",
+    "                    push_coalesced(&mut result, lo..hi, merged);", "", kind="benign")
+mut("c18e-vacant-only-with-data", "C18", "yrs/src/sync/awareness.rs", "                    let has_data = new.is_some();\n                    e.insert(ClientState::new(clock, now, new));\n                    if has_data {",
+    "                    let has_data = new.is_some();\n                    if has_data {\n                        e.insert(ClientState::new(clock, now, new));", "C18.e")
+mut("c19f-mask-copy-paste", "C19", "yffi/src/lib.rs", "        let cleanup_formatting = self.flags & Y_CLEANUP_FMT != 0;", "        let cleanup_formatting = self.flags & Y_SHOULD_LOAD != 0;", "C19.f")
+mut("c20b-links-taken", "C20", S, "                if let Some(source) = links.clone() {", "                if let Some(source) = links.take() {", "C20.b")
